@@ -40,9 +40,28 @@ def directed(rng: random.Random) -> dict:
     kind = rng.choice(["if_const", "if_undef", "for_bounds", "if_loopvar", "nested", "macro_if", "macro_for", "for_label", "else_chain",
                        "if_defines", "if_defines_label", "macro_if_defines", "for_shadow", "for_after", "macro_defined_in_if",
                        "macro_defined_in_empty_loop", "loop_state_per_iteration", "scope_in_loop", "loop_forward_label_shadow",
-                       "taken_branch_fails", "table_in_loop", "loop_var_width_boundary", "block_argument_in_loop", "statement_after_if_named_like_a_keyword"])
+                       "taken_branch_fails", "table_in_loop", "loop_var_width_boundary", "block_argument_in_loop", "statement_after_if_named_like_a_keyword",
+                       "condition_undefined_then_defined", "empty_first_block"])
     tables: dict = {}
     db = lambda *es: {"k": "data", "d": "db", "es": [e if isinstance(e, list) else E(e) for e in es]}  # noqa: E731
+    if kind == "condition_undefined_then_defined":
+        # one conditional assembled several times (a macro applied before and after the flag is set, outside and inside the block that sets it):
+        # every time the condition has the value the name has there - false while it is undefined
+        cond = {"k": "if", "c": E("tracef"), "t": [db(0xAA)], "e": [db(0x55)]} if rng.random() < 0.6 else {"k": "if", "c": E("tracef"), "t": [db(0xAA), db(E("tracef"))]}
+        body += [{"k": "macro", "n": "trq", "ps": [], "b": [cond, db(0xEE)]}, {"k": "call", "n": "trq", "as": []}]
+        if rng.random() < 0.5:
+            body += [{"k": "block", "b": [{"k": "assign", "n": "tracef", "e": E(rng.choice([1, 2]))}, {"k": "call", "n": "trq", "as": []}]}, {"k": "call", "n": "trq", "as": []}]
+        else:
+            body += [{"k": "assign", "n": "tracef", "e": E(rng.choice([1, 3]))}, {"k": "call", "n": "trq", "as": []}, {"k": "block", "b": [{"k": "call", "n": "trq", "as": []}]}]
+        return {"prog": body, "files": {}, "tables": tables, "rom": "low", "family": "directed:" + kind}
+    if kind == "empty_first_block":
+        # `.if RELEASE { } else { debug code }` is how "if not" is written: an empty (or comment-only) first block is still the one that is taken
+        flag = rng.choice([0, 1, 2])
+        body += [{"k": "assign", "n": "relq", "e": E(flag)}, {"k": "if", "c": E("relq"), "t": [], "e": [db(0x22)]}, db(0x33),
+                 {"k": "macro", "n": "optq", "ps": ["pk"], "b": [{"k": "if", "c": E("pk"), "t": [], "e": [db(0x44)]}, {"k": "if", "c": E("pk"), "t": [{"k": "block", "b": []}], "e": [db(0x45)]}]},
+                 {"k": "for", "v": "itq", "a": E(0), "b": E(3), "body": [{"k": "call", "n": "optq", "as": [E("itq", "-", 1)]}]},
+                 {"k": "if", "c": E(1), "t": [], "e": [{"k": "if", "c": E(1), "t": [], "e": [db(0x66)]}]}, db(0xEE)]
+        return {"prog": body, "files": {}, "tables": tables, "rom": "low", "family": "directed:" + kind}
     if kind == "if_const":
         st = {"k": "if", "c": rng.choice([E("cnA"), E("cnA", "&", 1), E("cnA", "+", 1), E("cnA", "-", cval)]), "t": [db(1)], "e": [db(2)] if rng.random() < 0.6 else None}
         body += [st, db(0xEE)]
